@@ -358,7 +358,8 @@ pub fn build(prop: &str, draws: &[u16], tier: Tier) -> Case {
     let mut s = Src::new(draws);
     let extra = if tier == Tier::Thorough { 1 } else { 0 };
     let (family, prog): (&str, Program) = match prop {
-        "C01" => match s.pick(10) {
+        "C01" => match s.pick(11) {
+            10 => ("convoy", gen::convoy(&mut s)),
             0 | 1 => ("atomics-sc", {
                 let lp = gen::LitmusParams {
                     sc_only: true,
@@ -381,7 +382,9 @@ pub fn build(prop: &str, draws: &[u16], tier: Tier) -> Case {
             8 => ("mixed2", gen::sync_prog(&mut s, &SyncParams { rwlock: true, condvar: true, atomics: true, max_threads: 2, max_ops: 7 + extra, ..sp() })),
             _ => ("try-ops", gen::sync_prog(&mut s, &SyncParams { mutex: true, try_lock: true, rwlock: true, try_rw: true, channel: true, try_recv: true, max_threads: 2, max_ops: 6 + extra, ..sp() })),
         },
-        "C05" => match s.pick(11) {
+        "C05" => match s.pick(13) {
+            12 => ("wake-crossover", gen::wake_crossover(&mut s)),
+            11 => ("mixed-wakeups", gen::sync_prog(&mut s, &SyncParams { channel: true, try_recv: true, condvar: true, park: true, notify: true, max_threads: 2, max_ops: 7 + extra, joins: true, ..sp() })),
             7 => ("yield", gen::sync_prog(&mut s, &SyncParams { park: true, mutex: true, channel: true, yields: true, ordered_locks: true, max_threads: 2, max_ops: 6 + extra, joins: true, joins_inside: true, ..sp() })),
             8 => ("yield-locks", gen::sync_prog(&mut s, &SyncParams { mutex: true, rwlock: true, yields: true, conditionals: true, ordered_locks: true, max_threads: 2, max_ops: 8 + extra, joins: true, joins_inside: true, ..sp() })),
             10 => ("cond-shapes", gen::cond_shape(&mut s)),
@@ -394,7 +397,9 @@ pub fn build(prop: &str, draws: &[u16], tier: Tier) -> Case {
             4 => ("park", gen::sync_prog(&mut s, &SyncParams { park: true, notify: true, unpark_any: true, max_threads: 3, max_ops: 6 + extra, joins: true, child_joins: true, ..sp() })),
             _ => ("mixed", gen::sync_prog(&mut s, &SyncParams { mutex: true, rwlock: true, channel: true, park: true, unpark_any: true, max_threads: 3, max_ops: 7 + extra, joins: true, ..sp() })),
         },
-        "C07" => match s.pick(8) {
+        "C07" => match s.pick(10) {
+            8 => ("yield-after-lock-op", gen::yield_after_lock_op(&mut s)),
+            9 => ("convoy", gen::convoy(&mut s)),
             0 => ("mutex", gen::sync_prog(&mut s, &SyncParams { mutex: true, ordered_locks: true, cells: true, max_threads: 3, max_ops: 7 + extra, late_spawn: true, ..sp() })),
             1 => ("rwlock", gen::sync_prog(&mut s, &SyncParams { rwlock: true, cells: true, max_threads: 3, max_ops: 7 + extra, ..sp() })),
             2 => ("mutex+rwlock", gen::sync_prog(&mut s, &SyncParams { mutex: true, rwlock: true, ordered_locks: true, final_exclusive: true, max_threads: 3, max_ops: 7 + extra, joins: true, ..sp() })),
@@ -403,7 +408,10 @@ pub fn build(prop: &str, draws: &[u16], tier: Tier) -> Case {
             6 => ("locks+probes", gen::sync_prog(&mut s, &SyncParams { mutex: true, rwlock: true, probes: true, ordered_locks: true, max_threads: 3, max_ops: 8 + extra, joins: true, ..sp() })),
             _ => ("handover", gen::lock_handover(&mut s)),
         },
-        "C08" => match s.pick(11) {
+        "C08" => match s.pick(14) {
+            13 => ("wake-crossover", gen::wake_crossover(&mut s)),
+            11 => ("multi-wait", gen::multi_wait(&mut s)),
+            12 => ("mixed-wakeups", gen::sync_prog(&mut s, &SyncParams { channel: true, try_recv: true, condvar: true, park: true, notify: true, max_threads: 2, max_ops: 7 + extra, joins: true, ..sp() })),
             7 => ("yield", gen::sync_prog(&mut s, &SyncParams { park: true, condvar: true, notify: true, yields: true, max_threads: 2, max_ops: 6 + extra, joins: true, ..sp() })),
             6 => ("unpark-any", gen::sync_prog(&mut s, &SyncParams { park: true, condvar: true, unpark_any: true, max_threads: 3, max_ops: 6 + extra, joins: true, ..sp() })),
             0 => ("condvar", gen::sync_prog(&mut s, &SyncParams { condvar: true, cells: true, max_threads: 3, max_ops: 7 + extra, ..sp() })),
@@ -422,7 +430,9 @@ pub fn build(prop: &str, draws: &[u16], tier: Tier) -> Case {
             4 => ("channel+probes", gen::sync_prog(&mut s, &SyncParams { channel: true, probes: true, max_threads: 3, max_ops: 8 + extra, joins: true, ..sp() })),
             _ => ("try_recv", gen::sync_prog(&mut s, &SyncParams { channel: true, try_recv: true, max_threads: 2, max_ops: 6 + extra, joins: true, ..sp() })),
         },
-        "C10" => match s.pick(5) {
+        "C10" => match s.pick(6) {
+            // thread-locals and lazy statics of the harness own a loom Arc (key 1): their destruction is part of "releases everything"
+            5 => ("tls-lazy", gen::tls_lazy_prog(&mut s, 3, 7, true)),
             0 | 1 => ("arc-leaks", gen::arc_prog(&mut s, &gen::ArcParams { inspect: true, leaks: true, tracked: false, cells: false, max_threads: 2, max_ops: 6 + extra })),
             2 | 3 => ("tracked", gen::arc_prog(&mut s, &gen::ArcParams { inspect: false, leaks: true, tracked: true, cells: false, max_threads: 2, max_ops: 6 + extra })),
             _ => ("messages", gen::sync_prog(&mut s, &SyncParams { channel: true, max_threads: 3, max_ops: 6 + extra, joins: true, ..sp() })),
